@@ -73,7 +73,11 @@ def make_partial(cache: dict[str, set[str]]):
             cache[fi.fq] = ub
         la = last_attr(call)
         f = call.func
-        if la == "decode" and isinstance(f, ast.Attribute) and isinstance(f.value, ast.Name) and f.value.id in ub and not call.args:
+        if la == "decode" and isinstance(f, ast.Attribute) and isinstance(f.value, ast.Name) and f.value.id in ub:
+            # bytes.decode(encoding="utf-8", errors="strict"): only the strict handler raises
+            errs = [k.value for k in call.keywords if k.arg == "errors"] or list(call.args[1:2])
+            if errs and isinstance(errs[0], ast.Constant) and errs[0].value in ("replace", "ignore", "backslashreplace", "surrogateescape"):
+                return []
             return ["UnicodeDecodeError"]
         if isinstance(f, ast.Name) and f.id in ("int", "float") and call.args and (names_in(call.args[0]) & ub):
             return ["ValueError"]
